@@ -53,6 +53,7 @@ pub fn nudge(x: f64, k: i64) -> f64 {
 // ---------------------------------------------------------------------------------------------
 thread_local! {
   static LAST_PANIC: std::cell::RefCell<String> = std::cell::RefCell::new(String::new());
+  static IN_CATCH: std::cell::Cell<u32> = std::cell::Cell::new(0);
 }
 pub fn install_quiet_panic_hook() {
   panic::set_hook(Box::new(|info| {
@@ -60,12 +61,17 @@ pub fn install_quiet_panic_hook() {
     let msg = if let Some(s) = info.payload().downcast_ref::<&str>() { s.to_string() }
       else if let Some(s) = info.payload().downcast_ref::<String>() { s.clone() } else { String::from("?") };
     let mut m = msg; m.truncate(160);
+    // a panic outside of catch() is a bug of the harness itself: make it visible (the run is then inconclusive)
+    if IN_CATCH.with(|c| c.get()) == 0 { eprintln!("HARNESS PANIC (not inside a monitored call): {} @ {}", m, loc); }
     LAST_PANIC.with(|c| *c.borrow_mut() = format!("{} @ {}", m, loc));
   }));
 }
 /// Run `f`, turning a panic into `Err("message @ file:line")`.
 pub fn catch<R, F: FnOnce() -> R>(f: F) -> Result<R, String> {
-  panic::catch_unwind(panic::AssertUnwindSafe(f)).map_err(|_| LAST_PANIC.with(|c| c.borrow().clone()))
+  IN_CATCH.with(|c| c.set(c.get() + 1));
+  let r = panic::catch_unwind(panic::AssertUnwindSafe(f));
+  IN_CATCH.with(|c| c.set(c.get() - 1));
+  r.map_err(|_| LAST_PANIC.with(|c| c.borrow().clone()))
 }
 /// location part ("src/nested/mod.rs:554") of a captured panic string
 pub fn panic_loc(p: &str) -> &str { p.rsplit(" @ ").next().unwrap_or("") }
